@@ -781,13 +781,28 @@ func dispatch(op, pat string, args []string, a *argTrack) string {
 		var recv *babyjub.Point
 		if pat == "dirty" {
 			recv = &babyjub.Point{X: big.NewInt(12345), Y: big.NewInt(67890)}
+		} else if pat == "samey" {
+			// a receiver that already holds the encoded y and an x of the encoded sign (a near miss of the result, in
+			// general not on the curve): whatever the receiver held must not influence the outcome
+			y := new(big.Int).SetBytes(reverse(b))
+			y.SetBit(y, 255, 0)
+			x := big.NewInt(1)
+			if b[31]&0x80 != 0 {
+				x = new(big.Int).Sub(constants.Q, big.NewInt(1))
+			}
+			recv = &babyjub.Point{X: x, Y: y}
 		} else {
 			recv = babyjub.NewPoint()
 		}
+		before := showPt(recv)
 		ret, err := recv.Decompress(buf)
 		if err != nil {
 			if ret != nil {
 				return classify(err) + "!nonnil-result"
+			}
+			if pat == "samey" && showPt(recv) == before {
+				// the models know this route as a fresh receiver: an untouched receiver is reported as the fresh one
+				return classify(err) + " recv=(0,1)"
 			}
 			return classify(err) + " recv=" + showPt(recv)
 		}
